@@ -24,7 +24,7 @@ Ranks(n) == [1..n -> {3, 4}]
 
 Init ==
     /\ \E n \in 1..MaxLen, rk \in UNION { Ranks(m) : m \in 1..MaxLen },
-          dt \in {None, "0.25"}, tr \in {None, "unitary", "scaled"},
+          dt \in {None, "0.25"}, tr \in {None, "unitary", "scaled", "in-only", "out-only"},
           caps \in BOOLEAN, named \in BOOLEAN :
         /\ Len(rk) = n
         /\ (tr # None => \A i \in 1..n : rk[i] = 4)      \* transformed tensors are stored with four legs
@@ -49,8 +49,8 @@ ExportEvents(p) ==
     << Ev("create", "x", 0), Ev("attr", "oqupy_version", "v"), Ev("attr", "name", p.name),
        Ev("attr", "description", p.description), Ev("attr", "writing", "TRUE"),
        Ev("dataset", "hs_dim", 1), Ev("dataset", "dt", 1),
-       Ev("dataset", "transform_in", IF p.transforms = None THEN 1 ELSE p.dim * p.dim),
-       Ev("dataset", "transform_out", IF p.transforms = None THEN 1 ELSE p.dim * p.dim),
+       Ev("dataset", "transform_in", IF p.transforms \in {None, "out-only"} THEN 1 ELSE p.dim * p.dim),
+       Ev("dataset", "transform_out", IF p.transforms \in {None, "in-only"} THEN 1 ELSE p.dim * p.dim),
        Ev("dataset", "initial_tensor_data", 1), Ev("dataset", "initial_tensor_shape", 1),
        Ev("dataset", "mpo_tensors_data", 0), Ev("dataset", "mpo_tensors_shape", 0),
        Ev("dataset", "cap_tensors_data", 0), Ev("dataset", "cap_tensors_shape", 0) >>
